@@ -26,6 +26,7 @@ type UnitResult struct {
 	exec      *Exec
 	fn        *ssa.Function
 	con       *Contract
+	qroots    []*qnode
 }
 
 func (w *World) newExec(unit string) *Exec {
